@@ -348,8 +348,9 @@ static void parse_args(int argc, char **argv) {
   if (input_paths.len == 0)
     error("no input files");
 
-  // -E implies that the input is the C macro language.
-  if (opt_E)
+  // -E and -M (which implies -E) imply that the input is the C macro
+  // language.
+  if (opt_E || opt_M)
     opt_x = FILE_C;
 }
 
